@@ -130,6 +130,8 @@ func (r *raffle) returnTicket(ticket *ticket) {
 }
 
 func (r *raffle) runningJob(jobid string) *runState {
+	r.runningMu.Lock()
+	defer r.runningMu.Unlock()
 	state, ok := r.runningJobs[jobid]
 	if ok {
 		return state
@@ -137,6 +139,13 @@ func (r *raffle) runningJob(jobid string) *runState {
 	return nil
 }
 
+// getRunningJobs returns a copy of the running jobs taken under the lock
 func (r *raffle) getRunningJobs() map[string]*runState {
-	return r.runningJobs
+	r.runningMu.Lock()
+	defer r.runningMu.Unlock()
+	res := make(map[string]*runState, len(r.runningJobs))
+	for k, v := range r.runningJobs {
+		res[k] = v
+	}
+	return res
 }
